@@ -264,7 +264,7 @@ func clipKeep(s string) string {
 
 func init() {
 	props["C01"] = c01Prop
-	corrs["C01"] = func(c *Ctx) { linkCorr(c); restoreCorr(c); fragCorr(c) }
+	corrs["C01"] = func(c *Ctx) { linkCorr(c); pipeCorr(c) }
 	replays["C01"] = func(c *Ctx, raw json.RawMessage) (bool, string) {
 		var in c01Input
 		if err := json.Unmarshal(raw, &in); err != nil || in.Src == "" {
